@@ -842,6 +842,9 @@ func replayOfDomain(dc *domCtx, seq []item, f domFail) map[string]any {
 
 // runSeqPart enumerates a sequence space in parallel.
 func runSeqPart(c *harness.Check, partNo int64, name string, dc *domCtx, sp *seqSpace, o domOpts, desc map[string]any) {
+	if !want(name) {
+		return
+	}
 	dc.precompute(sp.alpha)
 	type st struct {
 		w   *domWorker
@@ -959,6 +962,7 @@ func domainParts(c *harness.Check) {
 	}
 
 	thresholdPart(c, variants)
+	converterPart(c)
 	edgePart(c)
 }
 
@@ -966,6 +970,9 @@ func domainParts(c *harness.Check) {
 // (4) and MaxLinearDomains (16), in several insertion orders, through every
 // representation including files on disk.
 func thresholdPart(c *harness.Check, variants []textVariant) {
+	if !want("domain/threshold-sets") {
+		return
+	}
 	depth := harness.Pick(c, 4, 5)
 	dc := newDomCtx(domLabels, depth, 103)
 	pool := genNames(domLabels, 4)
@@ -1084,6 +1091,9 @@ func thresholdPart(c *harness.Check, variants []textVariant) {
 // edgePart records (never reports) how the text loader treats inputs the
 // statement is silent about.
 func edgePart(c *harness.Check) {
+	if !want("domain/edge") {
+		return
+	}
 	texts := []struct{ name, text string }{
 		{"empty file", ""},
 		{"only newline", "\n"},
@@ -1164,6 +1174,10 @@ func replayDomain(r map[string]any) []string {
 	for _, p := range r["items"].([]any) {
 		pr := p.([]any)
 		seq = append(seq, item{pr[0].(string)[0], pr[1].(string)})
+	}
+	if conv, _ := r["converter"].(bool); conv {
+		v, _ := r["variant"].(float64)
+		return replayConverter(dc, seq, int64(v))
 	}
 	tmp, err := os.MkdirTemp("", "verif-c10-")
 	if err != nil {
